@@ -103,12 +103,16 @@ def _frame_in_queue_get(frame):
     return False, None, None
 
 
-def call_with_oracle(fn, wall_cap=120.0, grace=0.7, timed_patience=60.0):
+def call_with_oracle(fn, wall_cap=120.0, grace=0.7, timed_patience=60.0, expected_children=None, exit_patience=None):
     """Runs fn() in a daemon thread and decides: returned / raised / deadlock / undecided.
 
     deadlock (structural, no deadline involved): every child process is dead, and the caller sits in
     Queue.get(timeout=None) - no producer can ever wake it up. When the caller polls with a timeout it gets
     `timed_patience` seconds after the last child's death before 'no return in bounded time' is reported.
+
+    With expected_children=k and exit_patience=P (scenarios in which the harness *knows* that the surviving workers stay
+    alive and silent for much longer than P): once all k children have been seen alive and one of them has gone, the
+    caller gets P seconds to return or raise; after that the verdict is 'blocked_after_death'.
     """
     box = {}
 
@@ -124,14 +128,32 @@ def call_with_oracle(fn, wall_cap=120.0, grace=0.7, timed_patience=60.0):
     t0 = time.time()
     t.start()
     dead_since = None
+    seen_all = False
+    first_exit = None
     while True:
         t.join(0.05)
         if not t.is_alive():
             box["wall"] = time.time() - t0
+            box["first_exit_after"] = None if first_exit is None else first_exit - t0
             _reap()
             return box
         kids = multiprocessing.active_children()
         now = time.time()
+        if expected_children is not None:
+            if len(kids) >= expected_children:
+                seen_all = True
+            elif seen_all and first_exit is None:
+                first_exit = now
+            if first_exit is not None and exit_patience is not None and now - first_exit > exit_patience:
+                alive = len(kids)
+                for k in kids:
+                    try:
+                        k.kill()
+                    except Exception:
+                        pass
+                return {"how": "blocked_after_death", "wall": now - t0,
+                        "detail": "a worker died %.1fs ago, %d worker(s) alive and silent, the call has neither returned "
+                                  "nor raised" % (now - first_exit, alive)}
         if not kids:
             if dead_since is None:
                 dead_since = now
